@@ -46,8 +46,8 @@ ASSUMPTIONS = [
     "a hang is decided by a watchdog of max(90 s, 40 x the measured cost of a plain run; normal cost "
     "0.1-1.5 s) and reported only when the traced job path reached no new line for >= 60 s while an "
     "untouched lock file of the dead process is still there; any other timeout is counted as inconclusive",
-    "quick tier: every point of the python and shell tasks, every 2nd point of the debug workflow and "
-    "every 4th of the cf workflow (residue rotates with VERIF_SEED), 32 (python task) / 16 cut lengths per result file; "
+    "quick tier: every point of the python and shell tasks, every 3rd point of the debug workflow and "
+    "every 6th of the cf workflow (residue rotates with VERIF_SEED), 32 (python task) / 10 cut lengths per result file; "
     "thorough: all points, all cut lengths of the result file of the python task",
 ]
 SHARDS = {"quick": 16, "thorough": 16}
@@ -55,7 +55,7 @@ WALL = {"quick": 240, "thorough": 1500}
 EXHAUSTIVE_WHEN_COMPLETED = True
 EXHAUSTIVE_NOTE = (
     "all executed line events of the job path x {crash, interrupt} for the listed task kinds "
-    "(quick: debug workflow sub-sampled 1/2, cf workflow 1/4); truncation lengths sampled except where stated"
+    "(quick: debug workflow sub-sampled 1/3, cf workflow 1/6); truncation lengths sampled except where stated"
 )
 
 KINDS = ["python", "shell", "wf_debug", "wf_cf"]
@@ -364,8 +364,27 @@ def check_truncate(case):
         scratchdir.rm(d)
 
 
+def resolve(case):
+    """cases may name the point by source text ("at_source") instead of by event index"""
+    if "event_index" in case or case.get("state") == "complete":
+        return case
+    dd = scratchdir.new("c12loc")
+    try:
+        trace, _ = dry_run(case["kind"], dd)
+    finally:
+        scratchdir.rm(dd)
+    row = LF.locate(trace, case["at_source"])
+    if row is None:
+        return None
+    return dict(case, event_index=row[0], expect=[row[2], row[3]])
+
+
 def check_case(case):
     LAST.clear()
+    case = resolve(case)
+    if case is None:
+        LAST["resub"] = "point_not_found"
+        return []
     if case["mode"] in FAULT_MODES:
         return check_fault(case)
     if case["mode"] == "truncate":
@@ -457,7 +476,7 @@ def run(sh):
             sh.count(f"trace_events:{kind}", len(trace))
         # quick tier: the two nodes of the workflow run the same code path, so the workflows are
         # sub-sampled (the residue class rotates with VERIF_SEED); thorough: every point
-        step = {"wf_debug": 2, "wf_cf": 4}.get(kind, 1) if sh.quick else 1
+        step = {"wf_debug": 3, "wf_cf": 6}.get(kind, 1) if sh.quick else 1
         off = sh.base_seed % step
         for row in trace:
             k = row[0]
@@ -477,7 +496,7 @@ def run(sh):
                 continue
             n_cuts = n_spread if fname == "_result.pklz" else 8
             if sh.quick and kind != "python":
-                n_cuts = min(n_cuts, 16)
+                n_cuts = min(n_cuts, 10)
             for cut in cuts_for(size, n_cuts, every):
                 cases.append(dict(kind=kind, mode="truncate", state="complete", job=job,
                                   file=fname, cut=cut))
@@ -489,7 +508,7 @@ def run(sh):
             row = trace[k]
             n_cuts = n_spread if fname == "_result.pklz" else 8
             if sh.quick and kind != "python":
-                n_cuts = min(n_cuts, 16)
+                n_cuts = min(n_cuts, 10)
             for cut in cuts_for(size, n_cuts, every):
                 cases.append(dict(kind=kind, mode="truncate", state="crash", event_index=k,
                                   expect=[row[2], row[3]], job=job, file=fname, phase=phase,
